@@ -271,10 +271,14 @@ def run(E: Engine, rep: Report, tier: str) -> dict:
             for n in body_nodes:
                 if isinstance(n, ast.Assign) and len(n.targets) == 1 and isinstance(n.targets[0], ast.Name):
                     local_defs.setdefault(n.targets[0].id, []).append(n.value)
+                if isinstance(n, ast.AnnAssign) and n.value is not None and isinstance(n.target, ast.Name):
+                    local_defs.setdefault(n.target.id, []).append(n.value)
 
             def alternatives(e: ast.AST, depth: int = 0) -> list[ast.AST]:
                 if isinstance(e, ast.Name) and e.id in local_defs and depth < 4:
                     return [a for v in local_defs[e.id] for a in alternatives(v, depth + 1)]
+                if isinstance(e, ast.IfExp):
+                    return alternatives(e.body, depth + 1) + alternatives(e.orelse, depth + 1)
                 return [e]
 
             totals = []
